@@ -99,6 +99,9 @@ impl<'a> RcacGenerator<'a> {
 
         let mut serial_bytes = [0u8; 8];
         crypto.rand()?.fill_bytes(&mut serial_bytes);
+        // The serial number is the content of a DER INTEGER: keep it positive
+        // (top bit clear) and minimally encoded (non-zero first byte)
+        serial_bytes[0] = (serial_bytes[0] & 0x7F) | 0x01;
 
         let cert_len = CertGenerator::new(self.buf).generate(
             &crypto,
@@ -182,6 +185,9 @@ impl<'a> IcacGenerator<'a> {
 
         let mut serial_bytes = [0u8; 8];
         crypto.rand()?.fill_bytes(&mut serial_bytes);
+        // The serial number is the content of a DER INTEGER: keep it positive
+        // (top bit clear) and minimally encoded (non-zero first byte)
+        serial_bytes[0] = (serial_bytes[0] & 0x7F) | 0x01;
 
         let cert_len = CertGenerator::new(self.buf).generate(
             &crypto,
